@@ -581,21 +581,28 @@ func macMachine(col *collector, b *bufs, mvi int) engine.Machine[*mstate] {
 			// oracle after every step: Sum against the reference, Sum leaves the state alone
 			before := engine.DumpString(s.h)
 			var got, got2 []byte
-			pre := make([]byte, 5, 5+20)
-			copy(pre, "abcde")
-			if t.Guard("mac/"+mv.name+"/sum", func() { got = s.h.Sum(nil); got2 = s.h.Sum(pre) }) {
+			if t.Guard("mac/"+mv.name+"/sum", func() { got = s.h.Sum(nil) }) {
+				return false
+			}
+			if engine.DumpString(s.h) != before {
+				t.Fail("mac/sum-disturbs-state", "[%s] private state changed by Sum(nil) after %d bytes", mv.name, s.n)
 				return false
 			}
 			want := refTag(mvi, 0, 0, 8*s.n)
 			if !bytes.Equal(got, want) {
 				col.add(mv.mismatchKey(8*s.n), 8*s.n, fmt.Sprintf("[%s] history %v: Sum over %d message bytes = %x, reference %x", mv.name, s.hist, s.n, got, want))
 			}
+			pre := make([]byte, 5, 5+20)
+			copy(pre, "abcde")
+			if t.Guard("mac/"+mv.name+"/sum", func() { got2 = s.h.Sum(pre) }) {
+				return false
+			}
 			if len(got2) != 5+mv.tag || string(got2[:5]) != "abcde" || !bytes.Equal(got2[5:], got) {
 				t.Fail("mac/sum-append", "Sum(prefix) = %x, Sum(nil) = %x", got2, got)
 				return false
 			}
 			if engine.DumpString(s.h) != before {
-				t.Fail("mac/sum-disturbs-state", "[%s] private state changed by Sum after %d bytes", mv.name, s.n)
+				t.Fail("mac/sum-disturbs-state", "[%s] private state changed by Sum(prefix) after %d bytes", mv.name, s.n)
 				return false
 			}
 			if s.h.Size() != mv.tag || s.h.BlockSize() != 16 {
